@@ -725,6 +725,17 @@ CrashProbe(p) ==
   /\ "write_ok" \in DOMAIN p => p.write_ok
   /\ UNCHANGED kvVars
 
+\* C12: a closed image of this history was altered (any bytes), opened, and check_integrity() was
+\* called.  Either the damage is reported (the open fails, the check returns an error - a panic is
+\* counted like an error: loud, not a false certificate), or the check returns Ok: then what the
+\* database serves afterwards must be exactly one commit point of the history, and after Ok(FALSE)
+\* ("repaired") a second check must return Ok(TRUE) with the same contents.
+CorruptProbe(p) ==
+  /\ (p.open = "ok" /\ IsOk(p.integ)) =>
+        /\ \E i \in 1..Len(hist) : ObsMatches(p.obs, hist[i])
+        /\ (p.integ.ok = FALSE) => (p.integ2 = Ok(TRUE) /\ p.same2)
+  /\ UNCHANGED kvVars
+
 \* full dump through a view: must be exactly that view
 Dump(src, obs) ==
   /\ SrcOk(src) /\ "tables" \in DOMAIN obs
